@@ -1861,3 +1861,69 @@ func CtlNest() []Case {
 	}
 	return out
 }
+
+// MemCopy is the family of whole-value loads of composite members of a storage buffer (`var p = buf.pts;`): arrays
+// whose element stride differs from the element size (vec3 elements, arrays of small arrays), nested in a struct
+// between scalars, copied to a local and read back element by element.
+func MemCopy() []Case {
+	var out []Case
+	v3 := wg.Vec(3, wg.I32)
+	mk := func(desc string, member wg.N, words int, reads func(p wg.N) []wg.N, nOut int) {
+		sT := wg.StructT("B")
+		sDecl := wg.StructDecl("B", wg.Member("a", wg.I32), wg.Member("pts", member), wg.Member("b", wg.I32))
+		outA := wg.Arr(wg.I32, nOut+2)
+		st := func(i int, e wg.N) wg.N { return wg.Asg(wg.RIdx(wg.RVar("out", outA), wg.LitI(int32(i)), wg.I32), e) }
+		inp := wg.RVar("inp", sT)
+		body := []wg.N{wg.Var("p", member, wg.Load(wg.RMem(inp, 1, "pts", member)))}
+		for i, e := range reads(wg.RVar("p", member)) {
+			body = append(body, st(i, e))
+		}
+		body = append(body, st(nOut, wg.Load(wg.RMem(inp, 0, "a", wg.I32))), st(nOut+1, wg.Load(wg.RMem(inp, 2, "b", wg.I32))))
+		globals := []wg.N{wg.Global("inp", "storage", "r", sT, 0, 0, wg.None), wg.Global("out", "storage", "rw", outA, 0, 1, wg.None)}
+		c := Case{Family: "memcopy", Desc: "memcopy " + desc, Prog: wg.Program([]wg.N{sDecl}, nil, globals, []wg.N{wg.Entry("main", nil, body)})}
+		for r := 0; r < 2; r++ {
+			in := make([]int32, words)
+			for i := range in {
+				in[i] = int32((r+1)*1000 + i) // every word distinct, padding words included
+			}
+			c.Inputs = append(c.Inputs, [][]int32{in, make([]int32, nOut+2)})
+		}
+		out = append(out, c)
+	}
+	// struct B { a: i32 @0, pts: array<vec3<i32>,4> @16 (stride 16), b: i32 @80 } : 96 bytes = 24 words
+	arrV3 := wg.Arr(v3, 4)
+	mk("array<vec3<i32>,4>", arrV3, 24, func(p wg.N) []wg.N {
+		var es []wg.N
+		for i := 0; i < 4; i++ {
+			for j := 0; j < 3; j++ {
+				es = append(es, wg.Load(wg.RIdx(wg.RIdx(p, wg.LitI(int32(i)), v3), wg.LitI(int32(j)), wg.I32)))
+			}
+		}
+		return es
+	}, 12)
+	// struct B { a @0, pts: array<array<i32,2>,3> @4 (stride 8), b @28 } : 32 bytes = 8 words
+	a2 := wg.Arr(wg.I32, 2)
+	arrA2 := wg.Arr(a2, 3)
+	mk("array<array<i32,2>,3>", arrA2, 8, func(p wg.N) []wg.N {
+		var es []wg.N
+		for i := 0; i < 3; i++ {
+			for j := 0; j < 2; j++ {
+				es = append(es, wg.Load(wg.RIdx(wg.RIdx(p, wg.LitI(int32(i)), a2), wg.LitI(int32(j)), wg.I32)))
+			}
+		}
+		return es
+	}, 6)
+	// struct B { a @0, pts: array<vec3<u32>,2> @16, b @48 } : 64 bytes = 16 words
+	v3u := wg.Vec(3, wg.U32)
+	arrV3u := wg.Arr(v3u, 2)
+	mk("array<vec3<u32>,2>", arrV3u, 16, func(p wg.N) []wg.N {
+		var es []wg.N
+		for i := 0; i < 2; i++ {
+			for j := 0; j < 3; j++ {
+				es = append(es, wg.Bitcast(wg.I32, wg.Load(wg.RIdx(wg.RIdx(p, wg.LitI(int32(i)), v3u), wg.LitI(int32(j)), wg.U32))))
+			}
+		}
+		return es
+	}, 6)
+	return out
+}
